@@ -116,6 +116,18 @@ var checkMWU = ev.Register("mwu-exact", func(c *Case) ev.Outcome {
 	if n1 > lim || n2 > lim {
 		return ev.Fail("harness error: sizes beyond the exact limits")
 	}
+	if ties {
+		// first the null distributions of some "sibling" tie vectors - the same counts in another
+		// order, the same decimal digits grouped differently - are evaluated at the very points the
+		// test is about to use: whatever that leaves behind must not change the answer
+		wU := float64(ref.PairCountU2(c.X1, c.X2)) / 2
+		for _, sib := range siblingVectors(T) {
+			d := stats.UDist{N1: n1, N2: n2, T: sib}
+			for _, u := range []float64{wU, wU - 0.5, float64(n1*n2) - wU, float64(n1*n2) - wU - 0.5} {
+				d.CDF(u)
+			}
+		}
+	}
 	x1 := append([]float64(nil), c.X1...)
 	x2 := append([]float64(nil), c.X2...)
 	res, err := stats.MannWhitneyUTest(x1, x2, stats.LocationHypothesis(c.Alt))
@@ -166,6 +178,65 @@ var checkMWU = ev.Register("mwu-exact", func(c *Case) ev.Outcome {
 	ev.MaxErr("P", d/tolP)
 	return ev.Outcome{NT: nt, Classes: classes}
 })
+
+// siblingVectors returns tie vectors with the same total that a careless cache key would
+// confuse with T: reversed, rotated, and with the decimal digits of the counts regrouped.
+func siblingVectors(T []int) [][]int {
+	var out [][]int
+	add := func(b []int) {
+		sum, sumT := 0, 0
+		for _, x := range b {
+			if x < 1 {
+				return
+			}
+			sum += x
+		}
+		for _, x := range T {
+			sumT += x
+		}
+		if sum == sumT && len(b) >= 2 && fmt.Sprint(b) != fmt.Sprint(T) {
+			out = append(out, b)
+		}
+	}
+	rev := make([]int, len(T))
+	for i, x := range T {
+		rev[len(T)-1-i] = x
+	}
+	add(rev)
+	add(append(append([]int(nil), T[1:]...), T[0]))
+	digits := ""
+	for _, x := range T {
+		digits += fmt.Sprint(x)
+	}
+	// regroup: pair up digits from the left / from the right, and all single
+	for mode := 0; mode < 3; mode++ {
+		var b []int
+		ds := digits
+		for len(ds) > 0 {
+			l := 1
+			if mode == 0 && len(ds) >= 2 && ds[0] != '0' {
+				l = 2
+			}
+			if mode == 1 && len(ds) >= 3 && ds[0] != '0' && len(b) == 0 {
+				l = 2
+			}
+			v := 0
+			fmt.Sscan(ds[:l], &v)
+			b = append(b, v)
+			ds = ds[l:]
+			if mode == 0 { // alternate: two digits, then one
+				mode = 3
+			} else if mode == 3 {
+				mode = 0
+			}
+		}
+		if mode == 3 {
+			mode = 0
+		}
+		add(b)
+	}
+	return out
+}
 
 func symmetric(T []int) bool {
 	for i, j := 0, len(T)-1; i < j; i, j = i+1, j-1 {
